@@ -90,6 +90,11 @@ class Module:
             self.tree = ast.parse(source, filename=relpath)
         except SyntaxError as exc:  # pragma: no cover
             raise AnalysisError(f"cannot parse {relpath}: {exc}") from exc
+        # docstrings carry no behaviour: drop them so that rules never depend on their presence
+        for n in ast.walk(self.tree):
+            if isinstance(n, (ast.FunctionDef, ast.AsyncFunctionDef, ast.ClassDef)) and len(n.body) > 1 \
+                    and isinstance(n.body[0], ast.Expr) and isinstance(n.body[0].value, ast.Constant) and isinstance(n.body[0].value.value, str):
+                n.body = n.body[1:]
         from .localnames import normalise_module
         self.alpha_normalised = normalise_module(relpath, self.tree)
         self.is_pkg = relpath.endswith("__init__.py")
